@@ -428,6 +428,10 @@ def m_get(I, st, info, args, depth):
             for s3, t2 in MD.fork_bool(I, s2, I.compare(s2, "Le", b, L)):
                 out.append((s3, "return", some(subseq(I, s3, s_, a, b)) if t2 else none()))
         return out
+    raw = deref(I, st, args[0])
+    if isinstance(raw, Seq) and (raw.attrs.get("elem") is not None or (raw.elems is not None and raw.kind != "bytes" and any(not isinstance(x, Aff) for x in raw.elems))):
+        # a sequence of things other than bytes (the segments of a token): the general model keeps the elements' own names
+        return MD.m_chunk_split(I, st, info, args, depth)
     m = re.search(r"::<(\d+)>$|::<\{?(\d+)", M.decode_typenum(info["name"]))
     n = None
     for g in (info.get("gargs") or []):
